@@ -660,6 +660,30 @@ func (sm SerialMessage) WalkAddrs(nbf *NomsBinFormat, cb func(addr hash.Hash) er
 			if err = cb(hash.New(mergeState.FromCommitAddrBytes())); err != nil {
 				return err
 			}
+			if mergeState.PreMergeHeadCommitAddrLength() != 0 {
+				if err = cb(hash.New(mergeState.PreMergeHeadCommitAddrBytes())); err != nil {
+					return err
+				}
+			}
+			for i := 0; i < mergeState.PendingCommitHashesLength(); i++ {
+				if pending, ok := hash.MaybeParse(string(mergeState.PendingCommitHashes(i))); ok {
+					if err = cb(pending); err != nil {
+						return err
+					}
+				}
+			}
+		}
+		rebaseState, err := msg.TryRebaseState(nil)
+		if err != nil {
+			return err
+		}
+		if rebaseState != nil {
+			if err = cb(hash.New(rebaseState.PreWorkingRootAddrBytes())); err != nil {
+				return err
+			}
+			if err = cb(hash.New(rebaseState.OntoCommitAddrBytes())); err != nil {
+				return err
+			}
 		}
 	case serial.RootValueFileID:
 		var msg serial.RootValue
